@@ -1024,14 +1024,15 @@ def _valm_bodies(g, atom_list, part=0, nparts=1):
     d = TABLE.rg[g][0]
     full1 = make_item(g, o)
     dd = make_item(g)
+    nm = nonmember_tags()
     for i, m in enumerate([d] + o):
         if i % nparts != part:
             continue
         for a in atom_list:
             it = tuple((e[0], a) if e[0] == m else e for e in full1)
             yield ((g, (it,)),)
-            yield ((g, (dd, it)), ("58", None))
-            yield (("55", None), (g, (full1, it, dd)))
+            yield ((g, (dd, it)), (nm[1], None))
+            yield ((nm[0], None), (g, (full1, it, dd)))
 
 
 def _cross_specs(g):
